@@ -39,6 +39,10 @@ func c03Kinds() []stmtKind {
 		b("DB 1"), b("DB 1,2,3"), b(`DB "abc"`), b(`DB "hello, world", 0x0a, 0`), b("DW 1"), b("DW 1,2"), b("DW back"), b("DD 1"), b("DD 1,2"), b("DD back"), b("DB $"),
 		b("RESB 1"), b("RESB 16"), b("RESB 0x100"), b("ALIGNB 4"), b("ALIGNB 16"),
 		b("X EQU 5"), b(`[INSTRSET "i486p"]`), b("GLOBAL back"), b("EXTERN ext1"), b("inner:"),
+		// strings whose characters are several bytes long (the CLI hands the parser UTF-8), a second section
+		// directive in mid-file, labels written as memory addresses
+		b(`DB "café"`), b(`DB "日本語",0`), b(`DB "ｱｲｳ","é",1`), b("[SECTION .data]"), b("[SECTION .text]"), b("[SECTION .bss]"),
+		b("MOV BYTE [after],1"), b("CMP WORD [back],1"), b("MOV AX,[after]"), b("MOV [back],EAX"), b("NOT DWORD [after]"),
 	}
 }
 
@@ -238,7 +242,7 @@ func c03Scenarios(tier string) []*core.Scenario {
 	mk := func(name string, depth int, orgs []int64) *core.Scenario {
 		return &core.Scenario{
 			Name: name, Bound: -1,
-			Rule: fmt.Sprintf("every ordered %d-tuple of statement kinds (catalogue of %d kinds: one per size class) in front of a label x ORG x BITS, with 7 kinds of use of the label and $ after it; non-trivial = assembled without error and the statements under test emitted >= 1 byte", depth, len(kinds)),
+			Rule:   fmt.Sprintf("every ordered %d-tuple of statement kinds (catalogue of %d kinds: one per size class) in front of a label x ORG x BITS, with 7 kinds of use of the label and $ after it; non-trivial = assembled without error and the statements under test emitted >= 1 byte", depth, len(kinds)),
 			Bounds: map[string]any{"kinds": len(kinds), "depth": depth, "origins": orgs, "uses": c03Uses(16)},
 			Build: func(c *core.Chooser) *core.Case {
 				mode := []int{16, 32}[c.Pick("mode", 2)]
@@ -281,9 +285,9 @@ func c03Scenarios(tier string) []*core.Scenario {
 					f["k2"] = ks[1]
 				}
 				return &core.Case{
-					Key:  fmt.Sprintf("BITS %d|ORG 0x%x|%s", mode, origin, strings.Join(ks, " ; ")),
-					Feat: f,
-					Srcs: []string{src, basesrc},
+					Key:   fmt.Sprintf("BITS %d|ORG 0x%x|%s", mode, origin, strings.Join(ks, " ; ")),
+					Feat:  f,
+					Srcs:  []string{src, basesrc},
 					Judge: c03Judge(mode, origin, ks, uses, true),
 				}
 			},
@@ -315,10 +319,33 @@ func c03Scenarios(tier string) []*core.Scenario {
 			src := c03Program(mode, 0x7c00, "\tORG 0x7c00\n", "", ks, uses)
 			basesrc := c03Program(mode, 0x7c00, "\tORG 0x7c00\n", "", nil, uses)
 			return &core.Case{
-				Key:  fmt.Sprintf("BITS %d|%s ; %s", mode, ks[0], ks[1]),
-				Feat: feat("mode", fmt.Sprint(mode), "org", "0x7c00", "shape", sh, "a", a, "b", b, "depth", "2", "k1", ks[0], "k2", ks[1]),
-				Srcs: []string{src, basesrc},
+				Key:   fmt.Sprintf("BITS %d|%s ; %s", mode, ks[0], ks[1]),
+				Feat:  feat("mode", fmt.Sprint(mode), "org", "0x7c00", "shape", sh, "a", a, "b", b, "depth", "2", "k1", ks[0], "k2", ks[1]),
+				Srcs:  []string{src, basesrc},
 				Judge: c03Judge(mode, 0x7c00, ks, uses, true),
+			}
+		},
+	})
+	// mode switches in front of the label: header mode C, then [BITS B] K1 [BITS C] K2 lab:
+	msKinds := []string{"MOV AX,1", "MOV EAX,1", "ADD CX,0x100", "PUSH 0x100", "MOV AX,[BX+2]", "MOV EAX,[EBX+4]", "AND ECX,0x00ff", "CWDE", "IMUL CX,4", "MOV WORD [0x0ff4],320"}
+	scs = append(scs, &core.Scenario{
+		Name: "mode_switch_then_label", Bound: -1,
+		Rule:   "file mode C, then [BITS B] K1 [BITS C] K2 in front of the label, for all (B, C) in {16,32}^2 and all ordered pairs of 10 mode-sensitive kinds: the label (used under mode C) must hold its real offset",
+		Bounds: map[string]any{"kinds": msKinds, "modes": "{16,32}^2"},
+		Build: func(c *core.Chooser) *core.Case {
+			mc := []int{16, 32}[c.Pick("modeC", 2)]
+			mb := []int{16, 32}[c.Pick("modeB", 2)]
+			k1 := msKinds[c.Pick("k1", len(msKinds))]
+			k2 := msKinds[c.Pick("k2", len(msKinds))]
+			ks := []string{fmt.Sprintf("[BITS %d]", mb), k1, fmt.Sprintf("[BITS %d]", mc), k2}
+			uses := append(append([]string{}, c03Uses(mc)[:3]...), "DW CAP")
+			src := c03Program(mc, 0x7c00, "\tORG 0x7c00\n", "", ks, uses)
+			basesrc := c03Program(mc, 0x7c00, "\tORG 0x7c00\n", "", nil, uses)
+			return &core.Case{
+				Key:   fmt.Sprintf("BITS %d|%s", mc, strings.Join(ks, " ; ")),
+				Feat:  feat("mode", fmt.Sprint(mc), "modeB", fmt.Sprint(mb), "org", "0x7c00", "depth", "4", "k1", k1, "k2", k2),
+				Srcs:  []string{src, basesrc},
+				Judge: c03Judge(mc, 0x7c00, ks, uses, true),
 			}
 		},
 	})
@@ -427,9 +454,11 @@ func c03SizeSweeps(tier string) []*core.Scenario {
 					}
 					v.Outcome = "assembled"
 					v.Nontrivial = len(r.Out) > 0
-					if !r.ViaCLI && !r.Died && len(r.Out) > 0 && int(r.LOC) != len(r.Out) {
-						v.Fails = []core.Fail{{Facet: "size_estimate", Dev: fmt.Sprintf("est=%d emit=%d", r.LOC, len(r.Out)),
-							Detail: fmt.Sprintf("pass 1 sized the statement as %d bytes, %d were emitted (% X)", r.LOC, len(r.Out), r.Out)}}
+					// relative to the baseline program (same frame without the statement: ORG, trailing label + byte)
+					est, emit := int(r.LOC)-int(base.LOC), len(r.Out)-len(base.Out)
+					if !r.ViaCLI && !r.Died && !base.ViaCLI && !base.Died && len(r.Out) > 0 && est != emit {
+						v.Fails = []core.Fail{{Facet: "size_estimate", Dev: fmt.Sprintf("est=%d emit=%d", est, emit),
+							Detail: fmt.Sprintf("pass 1 sized the statement as %d bytes, %d were emitted (% X)", est, emit, r.Out)}}
 					}
 					return v
 				}
